@@ -1754,6 +1754,15 @@ class NPShim(types.ModuleType):
     def asarray(self, x, dtype=None, **k):
         if isinstance(x, SV):
             r = _np.empty((), dtype=object); r[()] = x; return r.view(SA)
+        if isinstance(x, _np.ndarray) and x.dtype == object:
+            # an existing object array stays what it is (no copy: asarray keeps aliasing; it may receive symbolic
+            # values later even if it holds none now)
+            if dtype is not None and _np.dtype(dtype).kind in 'SU':
+                if _has_sym(x): raise Abort('string conversion of symbolic array')
+                return _np.asarray(x, dtype=dtype)
+            if dtype is not None and _np.dtype(dtype).kind in 'iub' and not _has_sym(x):
+                return _np.asarray(x.tolist(), dtype=dtype)
+            return x if isinstance(x, SA) else x.view(SA)
         a = _np.asarray(x) if not isinstance(x, _np.ndarray) else x
         if a.dtype == object:
             if _has_sym(a):
